@@ -111,14 +111,14 @@ def run(ctx):
         flag_sets = list(itertools.product((True, False), repeat=D)) if (th or D == 2) else [(True, False, True), (False, False, False)]
         for flags in flag_sets:
             # padding modes
-            for padding in ("TORUS", "SAME", "VALID", None, 1, [[1, 2]] * D if D == 2 else [[1, 0], [0, 1], [1, 1]]):
+            for padding in ("TORUS", "SAME", "VALID", None, 1, 0, [[1, 2]] * D if D == 2 else [[1, 0], [0, 1], [1, 1]]):
                 for rd in (1, 2) + (((1, 2) if D == 2 else (2, 1, 1)),):
                     for stride in (1, 2) + ((((1, 2) if D == 2 else (1, 2, 1)),) if th else ()):
                         for (ki, kf) in ((0, 0), (1, 0), (0, 1), (1, 1)) + (((2, 1), (0, 2)) if th else ()):
                             if not th:
                                 # covering sub-box
                                 h = (dhash((D, flags, str(padding), str(rd), str(stride), ki, kf)) % 7)
-                                if h not in (0, 1) and not (flags == (True, False)[:D] + (True,) * (D - 2) and rd == 1 and stride == 1):
+                                if h not in (0, 1) and not (flags == (True, False)[:D] + (True,) * (D - 2) and rd == 1 and stride == 1) and not (padding == 0 and rd == 1 and stride == 1 and (ki, kf) == (1, 0)):
                                     continue
                             if D == 3 and ki + kf > 2:
                                 continue
